@@ -112,12 +112,6 @@ theorem mem_of_filter {p : Act → Bool} {l : List Act} {a : Act} (h : a ∈ l.f
 /-- the actions of order `o` -/
 def atOrd (o : Int) (l : List Act) : List Act := l.filter (fun a => a.order == o)
 
-/-- Every discriminator that has an action in an earlier phase (executed or pending) is headed in
-each later phase group.  Excludes exactly the late-sibling groups of finding F-C04b. -/
-def LateOK (L R : List Act) : Prop :=
-  ∀ (o : Int) (d : Nat), (∃ x ∈ L ++ R, x.key = some d ∧ x.order < o) →
-    withKey (atOrd o R) d ≠ [] → Headed (atOrd o R) d
-
 structure SInv (st : St) : Prop where
   pend : st.pending = []
   que : st.queue = []
@@ -125,23 +119,10 @@ structure SInv (st : St) : Prop where
   plain : Plain st.remaining
   noreg : ∀ m, st.minOrder = some m → ∀ y ∈ st.remaining, m ≤ y.order
   below : ∀ x ∈ st.log, ∀ y ∈ st.remaining, x.order < y.order
-  late : LateOK st.log st.remaining
 
 theorem prevOf_some {L : List Act} {d : Nat} {p : Act} (h : prevOf L d = some p) : p ∈ L ∧ p.key = some d := by
   unfold prevOf at h
   exact ⟨List.mem_of_find?_eq_some h, by simpa using List.find?_some h⟩
-
-theorem SInv.lateHeaded {st : St} (h : SInv st) {o : Int} (ho : minOrd st.remaining = some o) :
-    LateHeaded st.log (atOrd o st.remaining) := by
-  intro d hne
-  cases hp : prevOf st.log d with
-  | none => exact Or.inl rfl
-  | some p =>
-    right
-    obtain ⟨hpL, hpk⟩ := prevOf_some hp
-    obtain ⟨⟨y, hy, hyo⟩, _⟩ := minOrd_spec ho
-    apply h.late o d ⟨p, List.mem_append_left _ hpL, hpk, ?_⟩ hne
-    rw [← hyo]; exact h.below p hpL y hy
 
 /-- the state after the whole lowest phase `o` has been processed -/
 def nextSt (st : St) (o : Int) : St :=
@@ -163,7 +144,7 @@ theorem SInv.next {st : St} (h : SInv st) {o : Int} (ho : minOrd st.remaining = 
     simp only [List.mem_filter, bne_iff_ne, ne_eq] at hy
     have := hmin y hy.1
     omega
-  refine ⟨h.pend, h.que, h.nodup.filter _, fun a ha => h.plain a (mem_of_filter ha), ?_, ?_, ?_⟩
+  refine ⟨h.pend, h.que, h.nodup.filter _, fun a ha => h.plain a (mem_of_filter ha), ?_, ?_⟩
   · intro m hm y hy
     simp only [nextSt] at hm hy
     by_cases hr : groupRuns st.log (atOrd o st.remaining) = []
@@ -177,35 +158,6 @@ theorem SInv.next {st : St} (h : SInv st) {o : Int} (ho : minOrd st.remaining = 
     rcases hx with hx | hx
     · rw [(mem_atOrd.mp (groupRuns_sub hx)).2]; exact hlt y hy
     · exact h.below x hx y (mem_of_filter hy)
-  · intro o' d hex hne
-    simp only [nextSt] at hex hne ⊢
-    have hsub : ∀ x, x ∈ atOrd o' (st.remaining.filter (fun a => a.order != o)) → x ∈ atOrd o' st.remaining := by
-      intro x hx
-      rw [mem_atOrd] at hx ⊢
-      exact ⟨mem_of_filter hx.1, hx.2⟩
-    have heq : o' ≠ o → atOrd o' (st.remaining.filter (fun a => a.order != o)) = atOrd o' st.remaining := by
-      intro hoo
-      simp only [atOrd, List.filter_filter]
-      apply List.filter_congr
-      intro x _
-      by_cases e : x.order = o' <;> simp [e, hoo]
-    by_cases hoo : o' = o
-    · subst hoo
-      exfalso
-      obtain ⟨a, as, hG⟩ := exists_cons_of_ne_nil hne
-      have : a ∈ withKey (atOrd o' (st.remaining.filter (fun a => a.order != o'))) d := by rw [hG]; simp
-      have := (mem_atOrd.mp (mem_withKey.mp this).1)
-      have h2 := this.1
-      simp only [List.mem_filter, bne_iff_ne, ne_eq] at h2
-      exact h2.2 this.2
-    · rw [heq hoo] at hne ⊢
-      apply h.late o' d ?_ hne
-      obtain ⟨x, hx, hk, hxo⟩ := hex
-      simp only [List.mem_append, List.mem_reverse] at hx
-      rcases hx with (hx | hx) | hx
-      · exact ⟨x, List.mem_append_right _ (mem_atOrd.mp (groupRuns_sub hx)).1, hk, hxo⟩
-      · exact ⟨x, List.mem_append_left _ hx, hk, hxo⟩
-      · exact ⟨x, List.mem_append_right _ (mem_of_filter hx), hk, hxo⟩
 
 /-- the state after the overridden actions of the lowest phase `o` have been forgotten -/
 def keepSt (st : St) (o : Int) : St :=
@@ -265,8 +217,7 @@ theorem advance_step {st : St} (h : SInv st) (n : Nat) :
     cases hr : resolveGroup st.log (atOrd o st.remaining) with
     | error ks =>
       obtain ⟨hne, _, _, heq⟩ := resolveGroup_error hn hr
-      have := heq (h.lateHeaded ho)
-      rw [← this]
+      rw [← heq]
       cases ks with
       | nil => exact absurd rfl hne
       | cons k ks => rfl
@@ -449,7 +400,7 @@ end Pyr.Actions
 namespace Pyr.Actions
 
 /-- Static programs: the machine is the phase specification. -/
-theorem run_static (top : List Act) (hn : IdsNodup top) (hp : Plain top) (hl : LateOK [] top)
+theorem run_static (top : List Act) (hn : IdsNodup top) (hp : Plain top)
     (fuel : Nat) (hf : top.length < fuel) : run noKids fuel top = specRun top := by
   obtain ⟨f, rfl⟩ : ∃ f, fuel = f + 1 := ⟨fuel - 1, by omega⟩
   let st0 : St := { remaining := top }
@@ -457,7 +408,7 @@ theorem run_static (top : List Act) (hn : IdsNodup top) (hp : Plain top) (hl : L
     cases top with
     | nil => rfl
     | cons a as => simp [absorb, initSt, st0]
-  have hinv : SInv st0 := ⟨rfl, rfl, hn, hp, (by intro m hm; cases hm), (by intro x hx; cases hx), hl⟩
+  have hinv : SInv st0 := ⟨rfl, rfl, hn, hp, (by intro m hm; cases hm), (by intro x hx; cases hx)⟩
   have hexec : exec noKids (f + 1) (initSt top) = stepFrom (top.length + 1) f st0 := by
     rw [← exec_succ_static hinv]
     simp only [exec, habs]
@@ -519,17 +470,6 @@ theorem groupRuns_all {L g : List Act} (hd : DistinctKeys (L ++ g)) (hn : IdsNod
     cases hk : x.key with
     | none => rfl
     | some d => simp [hprev x hx d hk, hwin x hx d hk]
-
-theorem DistinctKeys.lateOK {top : List Act} (hd : DistinctKeys top) : LateOK [] top := by
-  intro o d _ hne
-  obtain ⟨a, as, hG⟩ := exists_cons_of_ne_nil hne
-  have ha : a ∈ withKey (atOrd o top) d := by rw [hG]; simp
-  refine ⟨a, ha, ?_⟩
-  intro y hy
-  left
-  have hy' := mem_withKey.mp hy
-  have ha' := mem_withKey.mp ha
-  exact hd y (mem_atOrd.mp hy'.1).1 a (mem_atOrd.mp ha'.1).1 (by rw [hy'.2, ha'.2]) (by rw [hy'.2]; simp)
 
 /-- with pairwise distinct discriminators the phase specification runs everything, phase by phase -/
 theorem specPhases_conflict_free : ∀ (n : Nat) (L R : List Act), DistinctKeys (L ++ R) → IdsNodup (L ++ R) →
@@ -604,25 +544,5 @@ namespace Pyr.Actions
 instance (l : List Act) : Decidable (IdsNodup l) := by unfold IdsNodup; exact inferInstance
 instance (l : List Act) : Decidable (Plain l) := by unfold Plain; exact inferInstance
 instance (l : List Act) : Decidable (DistinctKeys l) := by unfold DistinctKeys; exact inferInstance
-
-/-- executable check of `LateOK` (only the phases and discriminators that occur matter) -/
-def lateOKb (L R : List Act) : Bool :=
-  R.all fun y => (discsOf (atOrd y.order R)).all fun d =>
-    !((L ++ R).any fun x => x.key == some d && decide (x.order < y.order)) ||
-      (withKey (atOrd y.order R) d).any (isWinner (atOrd y.order R))
-
-theorem lateOK_of_b {L R : List Act} (h : lateOKb L R = true) : LateOK L R := by
-  intro o d ⟨x, hx, hk, hlt⟩ hne
-  obtain ⟨a, as, hG⟩ := exists_cons_of_ne_nil hne
-  have ha : a ∈ withKey (atOrd o R) d := by rw [hG]; simp
-  have ha' := mem_atOrd.mp (mem_withKey.mp ha).1
-  simp only [lateOKb, List.all_eq_true] at h
-  have h1 := h a ha'.1 d (by rw [ha'.2]; exact mem_discsOf.mpr hne)
-  rw [ha'.2] at h1
-  simp only [Bool.or_eq_true, Bool.not_eq_true', List.any_eq_false, Bool.and_eq_true, beq_iff_eq,
-    decide_eq_true_eq, not_and, List.any_eq_true] at h1
-  rcases h1 with h1 | ⟨w, hw, hwin⟩
-  · exact absurd hlt (h1 x hx hk)
-  · exact ⟨w, hw, (isWinner_iff (mem_withKey.mp hw).2).mp hwin⟩
 
 end Pyr.Actions
